@@ -27,7 +27,12 @@ def main() -> int:
         mod = importlib.import_module(f'props.{pid.lower()}')
         from tools_bridge import regen
         regen_report = regen()
-        proof = core.prove(pid, mod.REQUIRED, a.tier, getattr(mod, 'EXTRA_MODULES', None))
+        try:
+            import py2lean
+            ties = py2lean.tie_modules(pid)
+        except ImportError:
+            ties = []
+        proof = core.prove(pid, mod.REQUIRED, a.tier, list(getattr(mod, 'EXTRA_MODULES', None) or []) + ties)
         proof['regen'] = regen_report
         core.use_repo_sources()
         if a.replay:
